@@ -6,16 +6,17 @@
 #include <stdlib.h>
 #include <string.h>
 #include <stdio.h>
+#include <pthread.h>
 
 /* ========================================================================
  * CRC32 (standard polynomial 0xEDB88320)
  * ======================================================================== */
 
 static uint32_t crc32_table[256];
-static bool crc32_initialized = false;
+static pthread_once_t crc32_once = PTHREAD_ONCE_INIT;
 
-static void crc32_init(void) {
-    if (crc32_initialized) return;
+/* Built exactly once, also when several daemon threads load modules at the same time */
+static void crc32_build_table(void) {
     for (uint32_t i = 0; i < 256; i++) {
         uint32_t crc = i;
         for (int j = 0; j < 8; j++) {
@@ -27,7 +28,10 @@ static void crc32_init(void) {
         }
         crc32_table[i] = crc;
     }
-    crc32_initialized = true;
+}
+
+static void crc32_init(void) {
+    pthread_once(&crc32_once, crc32_build_table);
 }
 
 uint32_t nvm_crc32(const uint8_t *data, uint32_t size) {
